@@ -29,6 +29,19 @@ type FileSpec struct {
 	Written h.Content `json:"written"`
 	Slices  []int     `json:"slices"`                 // write sizes, cyclic
 	Keep    bool      `json:"keep_writing,omitempty"` // error mode: the caller keeps writing the rest after a failed Write (and only then closes)
+	// Collide: offsets in Written at (or after) which three neighbouring bytes are changed by +1,-2,+1:
+	// the block differs from the signed one but has the same rolling (weak) hash
+	Collide []int `json:"collide,omitempty"`
+}
+
+func (f FileSpec) writtenBytes() []byte {
+	b := f.Written.Bytes()
+	for _, off := range f.Collide {
+		if off < len(b) {
+			h.CollideBytes(b, off)
+		}
+	}
+	return b
 }
 
 type Spec struct {
@@ -80,7 +93,7 @@ func check(s Spec) h.Result {
 	for i, f := range s.Files {
 		sb := f.Signed.Bytes()
 		signed = append(signed, sb)
-		written = append(written, f.Written.Bytes())
+		written = append(written, f.writtenBytes())
 		c.Files = append(c.Files, &tlc.File{Path: fmt.Sprintf("f%d", i), Size: int64(len(sb)), Mode: 0o644})
 		c.Size += int64(len(sb))
 		err := sctx.CreateSignature(context.Background(), int64(i), bytes.NewReader(sb), func(bh wsync.BlockHash) error { hs = append(hs, bh); return nil })
@@ -107,6 +120,12 @@ func check(s Spec) h.Result {
 		}
 	}
 	cl := []string{"mode:" + s.Mode}
+	for i, f := range s.Files {
+		if len(f.Collide) > 0 && !bytes.Equal(written[i], f.Written.Bytes()) {
+			cl = append(cl, "bad-block:same-weak-hash")
+			break
+		}
+	}
 	nt := false
 	type perFile struct{ from, to int }
 	var spans []perFile
@@ -334,6 +353,19 @@ func genFile(t *rapid.T, i int) FileSpec {
 		}
 	case 3: // truncated anywhere
 		w = w.Slice(0, rapid.IntRange(0, size).Draw(t, "truncate"))
+		if rapid.Bool().Draw(t, "collide-instead") {
+			// not truncated: blocks that differ from the signed ones but have the same rolling hash
+			w = h.Concat(f.Signed)
+			n := rapid.IntRange(1, 2).Draw(t, "ncollide")
+			for j := 0; j < n && size > 3; j++ {
+				b := rapid.IntRange(0, nblocks(size)-1).Draw(t, "collide-block")
+				off := b*B + rapid.SampledFrom([]int{0, 1, 999, B - 3}).Draw(t, "collide-in-block")
+				if off > size-3 {
+					off = size - 3
+				}
+				f.Collide = append(f.Collide, off)
+			}
+		}
 	case 4: // block-aligned prefix
 		w = w.Slice(0, rapid.IntRange(0, size/B).Draw(t, "prefix-blocks")*B)
 	case 5: // extended
@@ -497,7 +529,7 @@ var propPatcher = h.Prop[PatchSpec]{
 			s.Damage = h.GenDamages(t, s.Pair.Old, 2, false, false)
 			var keep []h.Dmg
 			for _, dm := range s.Damage {
-				if dm.Op == "flip" || dm.Op == "truncate" || dm.Op == "extend" {
+				if dm.Op == "flip" || dm.Op == "collide" || dm.Op == "truncate" || dm.Op == "extend" {
 					keep = append(keep, dm)
 				}
 			}
